@@ -59,6 +59,10 @@ pub struct Gen<'t, 'c> {
     /// names of procedures that can be called from the current body (index, is_function)
     callable: Vec<usize>,
     depth_in_loops: usize,
+    name_salt: usize,
+    in_args: usize,
+    shared_names: Vec<String>,
+    consts: Vec<(String, Ty)>,
 }
 
 const SMALL: [i64; 12] = [0, 1, 2, 3, 4, 5, 7, 8, 10, 12, 16, 20];
@@ -83,6 +87,10 @@ impl<'t, 'c> Gen<'t, 'c> {
             error_placed: false,
             callable: vec![],
             depth_in_loops: 0,
+            name_salt: 0,
+            in_args: 0,
+            shared_names: vec![],
+            consts: vec![],
         }
     }
 
@@ -111,14 +119,14 @@ impl<'t, 'c> Gen<'t, 'c> {
 
     /// A scalar variable of the given type (existing or new). Bare names are used for the default type sometimes.
     fn scalar(&mut self, ty: Ty, for_write: bool) -> LValue {
-        let cands: Vec<usize> = self.scope.iter().filter(|v| v.sty == STy::B(ty) && v.bounds.is_empty() && !(for_write && v.reserved)).map(|v| v.idx).collect();
+        let cands: Vec<usize> = self.scope.iter().filter(|v| v.sty == STy::B(ty) && v.bounds.is_empty() && !(for_write && v.reserved) && v.readable).map(|v| v.idx).collect();
         // prefer existing variables (3 in 4) once there are some
         if !cands.is_empty() && (cands.len() >= 3 || self.t.chance(3, 4)) {
             let i = cands[self.t.choose(cands.len())];
             let v = &self.scope[i];
             return LValue { name: v.name.clone(), var: v.idx, index: vec![], fields: vec![], sty: v.sty.clone() };
         }
-        let n = self.scope.iter().filter(|v| v.sty == STy::B(ty)).count();
+        let n = self.scope.iter().filter(|v| v.sty == STy::B(ty)).count() + self.name_salt;
         let letter = match ty {
             Ty::Int => 'I',
             Ty::Long => 'L',
@@ -189,6 +197,18 @@ impl<'t, 'c> Gen<'t, 'c> {
     /// Numeric expression; `want` biases the static type but does not force it.
     pub fn num_expr(&mut self, want: Ty, depth: usize) -> Expr {
         let leaf = depth == 0 || self.t.chance(2, 5);
+        if self.cfg.procs && depth > 0 && self.t.chance(1, 6) {
+            if let Some(e) = self.fn_call(want, depth - 1) {
+                return e;
+            }
+        }
+        if leaf && !self.consts.is_empty() && self.t.chance(1, 10) {
+            let cands: Vec<(String, Ty)> = self.consts.iter().filter(|(_, t)| t.is_numeric()).cloned().collect();
+            if !cands.is_empty() {
+                let (n, t) = cands[self.t.choose(cands.len())].clone();
+                return Expr::Const(n, t);
+            }
+        }
         if leaf {
             return match self.t.choose(4) {
                 0 => {
@@ -484,6 +504,26 @@ impl<'t, 'c> Gen<'t, 'c> {
             out.push(self.error_stmt());
             return;
         }
+        if self.cfg.procs && self.t.chance(1, 5) {
+            if let Some(st) = self.sub_call() {
+                out.push(st);
+                return;
+            }
+        }
+        if self.cfg.procs {
+            if let Some(p) = self.in_proc {
+                // assign the function result now and then
+                if let Some(rv) = self.prog.procs[p].result_var {
+                    if self.t.chance(1, 5) {
+                        let ty = self.prog.procs[p].ret.unwrap();
+                        let e = if ty == Ty::Str { self.str_expr(1) } else { self.num_expr(ty, 1) };
+                        let name = self.prog.procs[p].name.clone();
+                        out.push(Stmt::Assign(LValue { name, var: rv, index: vec![], fields: vec![], sty: STy::B(ty) }, e));
+                        return;
+                    }
+                }
+            }
+        }
         let k = if can_nest { self.t.choose(20) } else { self.t.choose(10) };
         match k {
             0 | 1 | 2 | 3 => out.push(self.print_stmt()),
@@ -676,6 +716,279 @@ impl<'t, 'c> Gen<'t, 'c> {
                 main.insert(pos.min(main.len()), Stmt::Data(c));
             }
         }
+        self.prog.main = main;
+        self.prog
+    }
+}
+
+impl<'t, 'c> Gen<'t, 'c> {
+    /// Arguments for a call of procedure `p` from the current scope.
+    fn call_args(&mut self, p: usize, depth: usize) -> Vec<Expr> {
+        self.in_args += 1;
+        let r = self.call_args_inner(p, depth);
+        self.in_args -= 1;
+        r
+    }
+
+    fn call_args_inner(&mut self, p: usize, depth: usize) -> Vec<Expr> {
+        let params: Vec<Param> = self.prog.procs[p].params.clone();
+        let mut used_by_ref: Vec<usize> = vec![];
+        let mut args = vec![];
+        for pa in &params {
+            let ty = pa.sty.ety().unwrap();
+            let by_ref = self.t.chance(1, 2);
+            if by_ref {
+                // a plain variable of exactly the parameter's type: not a loop counter, not SHARED, not passed twice
+                let l = self.scalar(ty, true);
+                let shared = self.shared_names.iter().any(|n| n.eq_ignore_ascii_case(&l.name));
+                if !used_by_ref.contains(&l.var) && !shared {
+                    used_by_ref.push(l.var);
+                    args.push(Expr::Load(l));
+                    continue;
+                }
+            }
+            // by value
+            let e = if ty == Ty::Str {
+                match self.t.choose(3) {
+                    0 => Expr::Lit(Lit::Str(self.t.pick(&WORDS).to_string())),
+                    1 => Expr::Paren(Box::new(Expr::Load(self.scalar(Ty::Str, false)))),
+                    _ => {
+                        let a = self.str_expr(depth.min(1));
+                        match a {
+                            Expr::Load(_) => Expr::Paren(Box::new(a)),
+                            o => o,
+                        }
+                    }
+                }
+            } else {
+                match self.t.choose(4) {
+                    0 => self.any_whole_lit_in(ty),
+                    1 => Expr::Paren(Box::new(Expr::Load(self.scalar(ty, false)))),
+                    2 => {
+                        // a value of another numeric type: converted to the parameter type
+                        let other = self.num_ty();
+                        let e = self.num_expr(other, depth.min(1));
+                        match e {
+                            Expr::Load(_) => Expr::Paren(Box::new(e)),
+                            // known finding zero-arg-function-as-argument: parenthesise
+                            Expr::Call(_, ref a) if a.is_empty() => Expr::Paren(Box::new(e)),
+                            o => o,
+                        }
+                    }
+                    _ => {
+                        let e = self.num_expr(ty, depth.min(1));
+                        match e {
+                            Expr::Load(_) => Expr::Paren(Box::new(e)),
+                            Expr::Call(_, ref a) if a.is_empty() => Expr::Paren(Box::new(e)),
+                            o => o,
+                        }
+                    }
+                }
+            };
+            args.push(e);
+        }
+        args
+    }
+
+    fn any_whole_lit_in(&mut self, ty: Ty) -> Expr {
+        if ty.is_whole() { self.any_whole_lit() } else { self.num_lit(ty) }
+    }
+
+    fn fn_call(&mut self, want: Ty, depth: usize) -> Option<Expr> {
+        // known finding zero-arg-function-as-argument: no parameterless function anywhere inside an argument list
+        let in_args = self.in_args > 0;
+        let cands: Vec<usize> = self.callable.iter().cloned().filter(|p| self.prog.procs[*p].ret.map(|t| t.is_numeric()).unwrap_or(false) && !(in_args && self.prog.procs[*p].params.is_empty())).collect();
+        if cands.is_empty() {
+            return None;
+        }
+        let _ = want;
+        let p = cands[self.t.choose(cands.len())];
+        let args = self.call_args(p, depth);
+        Some(Expr::Call(p, args))
+    }
+
+    fn sub_call(&mut self) -> Option<Stmt> {
+        let cands: Vec<usize> = self.callable.iter().cloned().filter(|p| self.prog.procs[*p].ret.is_none()).collect();
+        if cands.is_empty() {
+            return None;
+        }
+        let p = cands[self.t.choose(cands.len())];
+        let args = self.call_args(p, 1);
+        Some(Stmt::CallSub(p, args))
+    }
+
+    fn closing_print(&mut self, out: &mut Vec<Stmt>) {
+        let mut items = vec![];
+        let vars: Vec<ScopeVar> = self.scope.iter().filter(|v| v.bounds.is_empty() && v.readable && matches!(v.sty, STy::B(_))).cloned().collect();
+        for v in vars.iter().take(8) {
+            if !items.is_empty() {
+                items.push(PrintItem::Semi);
+            }
+            items.push(PrintItem::E(Expr::Load(LValue { name: v.name.clone(), var: v.idx, index: vec![], fields: vec![], sty: v.sty.clone() })));
+        }
+        if !items.is_empty() {
+            out.push(Stmt::Print(items));
+        }
+    }
+
+    /// Programs with SUBs/FUNCTIONs (some STATIC), SHARED variables, CONSTs, recursion.
+    pub fn calls_program(mut self) -> Program {
+        let mut prelude: Vec<Stmt> = vec![];
+        // constants
+        let nconst = self.t.choose(3);
+        for k in 0..nconst {
+            let (name, ty, e) = match self.t.choose(3) {
+                0 => (format!("CN{}", k + 1), Ty::Int, Expr::Lit(Lit::Whole(*self.t.pick(&SMALL)))),
+                1 => (format!("CN{}#", k + 1), Ty::Double, Expr::Lit(Lit::Frac { num: *self.t.pick(&[5i64, 1, 3, 9]), shift: 1, double: true })),
+                _ => (format!("CN{}&", k + 1), Ty::Long, Expr::Lit(Lit::Whole(*self.t.pick(&[100000i64, 40000, 65536])))),
+            };
+            prelude.push(Stmt::Const(name.clone(), e));
+            self.consts.push((name, ty));
+        }
+        // DIM SHARED scalars
+        let nshared = self.t.choose(3);
+        for k in 0..nshared {
+            let ty = *self.t.pick(&[Ty::Int, Ty::Long, Ty::Single, Ty::Str, Ty::Double]);
+            let name = format!("G{}{}", k + 1, ty.suffix());
+            let idx = self.add_var(name.clone(), STy::B(ty), vec![], false);
+            self.prog.vars[idx].shared = true;
+            self.shared_names.push(name.clone());
+            prelude.push(Stmt::Dim(Dim { var: idx, name, bounds: vec![], explicit_lower: false, sty: STy::B(ty), extended: false, shared: true }));
+        }
+        // signatures
+        let nprocs = 1 + self.t.choose(4);
+        for k in 0..nprocs {
+            let is_fn = self.t.chance(1, 2);
+            let ret = if is_fn { Some(*self.t.pick(&[Ty::Int, Ty::Long, Ty::Single, Ty::Double, Ty::Int])) } else { None };
+            let name = match ret {
+                Some(t) => format!("Fn{}{}", k + 1, t.suffix()),
+                None => format!("Sb{}", k + 1),
+            };
+            let np = self.t.choose(4);
+            let mut params = vec![];
+            let mut vars = vec![];
+            for j in 0..np {
+                let ty = *self.t.pick(&[Ty::Int, Ty::Long, Ty::Single, Ty::Double, Ty::Str]);
+                let extended = self.t.chance(1, 4);
+                let pname = if extended { format!("P{}", (b'A' + j as u8) as char) } else { format!("P{}{}", (b'A' + j as u8) as char, ty.suffix()) };
+                params.push(Param { name: pname.clone(), var: j, sty: STy::B(ty), array: false, extended });
+                vars.push(VarInfo { name: pname, sty: STy::B(ty), bounds: vec![], shared: false });
+            }
+            let result_var = ret.map(|t| {
+                vars.push(VarInfo { name: name.clone(), sty: STy::B(t), bounds: vec![], shared: false });
+                vars.len() - 1
+            });
+            let is_static = self.t.chance(1, 4);
+            self.prog.procs.push(Proc { name, ret, params, is_static, body: vec![], vars, result_var });
+        }
+        self.prog.declare = self.t.chance(1, 3);
+        // bodies: a procedure may call the ones before it
+        let main_scope = std::mem::take(&mut self.scope);
+        for p in 0..nprocs {
+            self.in_proc = Some(p);
+            self.scope = vec![];
+            let pv: Vec<VarInfo> = self.prog.procs[p].vars.clone();
+            for (i, v) in pv.iter().enumerate() {
+                let is_result = self.prog.procs[p].result_var == Some(i);
+                self.scope.push(ScopeVar { idx: i, name: v.name.clone(), sty: v.sty.clone(), bounds: vec![], reserved: false, readable: !is_result });
+            }
+            // shared variables are visible
+            for g in main_scope.iter().filter(|g| self.shared_names.iter().any(|n| n == &g.name)) {
+                let idx = self.scope.len();
+                self.scope.push(ScopeVar { idx, name: g.name.clone(), sty: g.sty.clone(), bounds: vec![], reserved: false, readable: true });
+                self.prog.procs[p].vars.push(VarInfo { name: g.name.clone(), sty: g.sty.clone(), bounds: vec![], shared: true });
+            }
+            self.callable = (0..p).collect();
+            self.name_salt = 10 * (p + 1);
+            self.counter_seq = 100 * (p + 1);
+            let mut body = vec![];
+            // entry observation: locals are fresh, parameters arrive converted
+            let mut items = vec![PrintItem::E(Expr::Lit(Lit::Str(format!("[{}]", self.prog.procs[p].name)))), PrintItem::Semi];
+            for pa in self.prog.procs[p].params.clone() {
+                items.push(PrintItem::E(Expr::Load(LValue { name: pa.name.clone(), var: pa.var, index: vec![], fields: vec![], sty: pa.sty.clone() })));
+                items.push(PrintItem::Semi);
+            }
+            items.pop();
+            body.push(Stmt::Print(items));
+            self.stmts_left = 2 + self.t.choose(5);
+            while self.stmts_left > 0 {
+                self.stmt_into(1, &mut body);
+            }
+            // make the by-reference effect visible: parameters are often assigned
+            for pa in self.prog.procs[p].params.clone() {
+                if self.t.chance(1, 2) {
+                    let ty = pa.sty.ety().unwrap();
+                    let e = if ty == Ty::Str { self.str_expr(1) } else { self.num_expr(ty, 1) };
+                    body.push(Stmt::Assign(LValue { name: pa.name.clone(), var: pa.var, index: vec![], fields: vec![], sty: pa.sty.clone() }, e));
+                }
+            }
+            if let Some(rv) = self.prog.procs[p].result_var {
+                if self.t.chance(4, 5) {
+                    let ty = self.prog.procs[p].ret.unwrap();
+                    let e = self.num_expr(ty, 1);
+                    let name = self.prog.procs[p].name.clone();
+                    body.push(Stmt::Assign(LValue { name, var: rv, index: vec![], fields: vec![], sty: STy::B(ty) }, e));
+                }
+            }
+            self.closing_print(&mut body);
+            self.prog.procs[p].body = body;
+        }
+        // optional recursive function (hand-built shape with generated parameters)
+        if self.t.chance(1, 2) {
+            let p = self.prog.procs.len();
+            let name = "Rec&".to_string();
+            let n = LValue { name: "N%".into(), var: 0, index: vec![], fields: vec![], sty: STy::B(Ty::Int) };
+            let acc = LValue { name: "ACC&".into(), var: 1, index: vec![], fields: vec![], sty: STy::B(Ty::Long) };
+            let loc = LValue { name: "LOC%".into(), var: 2, index: vec![], fields: vec![], sty: STy::B(Ty::Int) };
+            let res = LValue { name: name.clone(), var: 3, index: vec![], fields: vec![], sty: STy::B(Ty::Long) };
+            let k = *self.t.pick(&[2i64, 3, 1, 5]);
+            let body = vec![
+                // a fresh local must read 0 in every activation
+                Stmt::Print(vec![PrintItem::E(Expr::Lit(Lit::Str("r".into()))), PrintItem::Semi, PrintItem::E(Expr::Load(n.clone())), PrintItem::Semi, PrintItem::E(Expr::Load(loc.clone()))]),
+                Stmt::Assign(loc.clone(), Expr::Bin(BinOp::Mul, Box::new(Expr::Load(n.clone())), Box::new(Expr::Lit(Lit::Whole(k))))),
+                Stmt::If {
+                    arms: vec![(Expr::Bin(BinOp::Le, Box::new(Expr::Load(n.clone())), Box::new(Expr::Lit(Lit::Whole(0)))), vec![Stmt::Assign(res.clone(), Expr::Load(acc.clone()))])],
+                    else_: Some(vec![
+                        Stmt::Assign(acc.clone(), Expr::Bin(BinOp::Add, Box::new(Expr::Load(acc.clone())), Box::new(Expr::Load(loc.clone())))),
+                        Stmt::Assign(res.clone(), Expr::Call(p, vec![Expr::Bin(BinOp::Sub, Box::new(Expr::Load(n.clone())), Box::new(Expr::Lit(Lit::Whole(1)))), Expr::Load(acc.clone())])),
+                        Stmt::Print(vec![PrintItem::E(Expr::Lit(Lit::Str("u".into()))), PrintItem::Semi, PrintItem::E(Expr::Load(loc.clone())), PrintItem::Semi, PrintItem::E(Expr::Load(acc.clone()))]),
+                    ]),
+                },
+            ];
+            let vars = vec![
+                VarInfo { name: "N%".into(), sty: STy::B(Ty::Int), bounds: vec![], shared: false },
+                VarInfo { name: "ACC&".into(), sty: STy::B(Ty::Long), bounds: vec![], shared: false },
+                VarInfo { name: "LOC%".into(), sty: STy::B(Ty::Int), bounds: vec![], shared: false },
+                VarInfo { name: name.clone(), sty: STy::B(Ty::Long), bounds: vec![], shared: false },
+            ];
+            let params = vec![Param { name: "N%".into(), var: 0, sty: STy::B(Ty::Int), array: false, extended: false }, Param { name: "ACC&".into(), var: 1, sty: STy::B(Ty::Long), array: false, extended: false }];
+            self.prog.procs.push(Proc { name, ret: Some(Ty::Long), params, is_static: false, body, vars, result_var: Some(3) });
+        }
+        // main
+        self.in_proc = None;
+        self.scope = main_scope;
+        self.callable = (0..self.prog.procs.len()).collect();
+        self.name_salt = 0;
+        self.counter_seq = 0;
+        let mut main = prelude;
+        let target = 3 + self.t.choose(self.cfg.max_stmts.saturating_sub(2).max(1));
+        self.stmts_left = target;
+        while self.stmts_left > 0 {
+            self.stmt_into(0, &mut main);
+        }
+        // every procedure is called at least once, STATIC ones twice
+        for p in 0..self.prog.procs.len() {
+            let times = if self.prog.procs[p].is_static { 2 } else { 1 };
+            for _ in 0..times {
+                let args = self.call_args(p, 1);
+                if self.prog.procs[p].ret.is_some() {
+                    main.push(Stmt::Print(vec![PrintItem::E(Expr::Call(p, args))]));
+                } else {
+                    main.push(Stmt::CallSub(p, args));
+                }
+            }
+        }
+        self.closing_print(&mut main);
         self.prog.main = main;
         self.prog
     }
